@@ -16,7 +16,7 @@ MC_INV = {
 T_MON = {
     "C05": ["M_DeliveredOrdered", "M_DeliveredFromStart", "M_DeliveredPrefix", "M_DeliveredMatchesWrite", "M_RefusedDeliversNothing",
             "M_NoSkip", "M_NothingAfterClose", "M_CompleteAtQuiescence", "M_WatchBulkExactlyOnce"],
-    "C06": ["M_ListWatchAgree", "M_ReadIsSnapshot", "M_ReadStable", "M_HeaderCoversData", "M_NoSkip", "M_DeliveredMatchesWrite", "M_CompleteAtQuiescence", "M_Converged"],
+    "C06": ["M_ListWatchAgree", "M_ReadIsSnapshot", "M_ReadStable", "M_HeaderCoversData", "M_NoSkip", "M_DeliveredMatchesWrite", "M_CompleteAtQuiescence", "M_Converged", "M_CompactionPreservesReads"],
 }
 
 
@@ -171,6 +171,14 @@ def check_watch(prop, tier, seed):
                           dict(W_CONSTS, SubCap=10, CacheSize=10, Keys={1}, Writers={"c1", "c2"}, OpsPer=1, InitStates={"none", "live", "deleted"}, ExpSet={0, 1, 4},
                                WatchStarts={4}, WatchPrefixes={0}, FaultKinds={"err", "unka", "unkn"}, FaultBudget=2, Compactors={"k1"}, CompactRevs={0, 4},
                                MaxCompacts=1, AtomicWrites=False), n // 2, ["-cache", "10", "-seqdetail"], 16))
+        if prop == "C06":
+            # ... and compactions whose deletions fail: the stepwise compactor (one step per engine deletion) with one deletion that
+            # errs, loses its compare or a compactor that dies, next to a writer, under list-then-watch
+            plans.append(("memkv", "stepwise compactor with one failing / lost deletion or a dying compactor next to a writer, list-then-watch",
+                          dict(W_CONSTS, SubCap=10, CacheSize=10, Keys={1}, Writers={"c1"}, OpsPer=1, InitStates={"live", "live2", "deleted", "recreated"},
+                               ExpSet={0, 1, 2, 3}, WatchStarts={999, 4}, WatchPrefixes={0}, Compactors={"k1"}, CompactRevs={0, 2, 4}, MaxCompacts=1,
+                               CompactDetail=True, DelFaults={"err", "cas", "die"}, FaultBudget=1, AtomicWrites=False), 500 if quick else 5000,
+                          ["-cache", "10", "-seqdetail"], 8))
         if prop == "C05":
             plans.append(("memkv", "slow consumer: subscriber buffer overflows (real capacity 10000, scaled with empty batches)",
                           dict(W_CONSTS, OpsPer=5, SubCap=1, WatchStarts={0, 4, 5, 6}, FixedOps="<- MCAlternate", LazyWatchers={"w1"}, EagerSeq=True),
